@@ -39,6 +39,11 @@ def extra_worlds():
         {"all.do": [S(deps=["a", "w"])], "a.do": [S(kind="always", deps=["c"])], "w.do": [S(kind="always", deps=["b"], out="file")],
          "b.do": [S(deps=["c"])], "c.do": [S(kind="csum", deps=["s"], proj=True, out="file")]},
         ["all", "a", "w", "b", "c"], ["all"])
+    w["forced-shared"] = World(   # one dependent asks for x with redo-ifchange, the other FORCES it (`redo x`) in the same run
+        "forced-shared", {"s": ["0", "1"]},
+        {"all.do": [S(deps=["a", "b"])], "a.do": [S(deps=["x"])], "b.do": [S(seq=[("redo", ["x"])], out="file")],
+         "x.do": [S(deps=["s"])]},
+        ["all", "a", "b", "x"], ["all"])
     w["chain3"] = World(
         "chain3", {"s": ["0", "1"]},
         {"t1.do": [S(deps=["m"])], "t2.do": [S(deps=["m"], out="file")], "m.do": [S(deps=["l"])], "l.do": [S(deps=["s"])]},
@@ -67,8 +72,13 @@ def scenarios(tier):
     L.append((SC.scn("always-shared-j2", w["always-shared"], ["redo --no-log -j2 top"], visible=VIS), 1 if q else 2))
     L.append((SC.scn("csum-stops-stamping-shared-j2", w["csum-stops"], ["redo --no-log -j2 all"],
                      setup=[["ifchange", ["all"]], ["dovar", "c.do", 1], ["edit", "s", "2"]], visible=VIS), 1 if q else 2))
+    # a forced `redo x` of a node another job is building: it waits for the lock and builds x again (serially x runs
+    # twice as well); never more often than serially, and x stays a target with its dependency
+    L.append((SC.scn("forced-redo-of-shared-j2", w["forced-shared"], ["redo --no-log -j2 all"], visible=VIS), 1 if q else 2))
+    L.append((SC.scn("forced-redo-of-shared-rebuild-j2", w["forced-shared"], ["redo --no-log -j2 all"],
+                     setup=[["ifchange", ["all"]], ["edit", "s", "1"]], visible=VIS), 1 if q else 2))
     # every order of the command line (what --shuffle can produce) for two targets sharing a chain
-    for perm in itertools.permutations(["t1", "t2"]):
+    for perm in list(itertools.permutations(["t1", "t2"]))[:1 if q else 2]:      # quick: one order
         L.append((SC.scn("chain3-j2-" + "".join(perm), w["chain3"], ["redo --no-log -j2 " + " ".join(perm)], visible=VIS), 1 if q else 2))
     if not q:
         L.append((SC.scn("diamond-j3", w["diamond"], ["redo --no-log -j3 top"], visible=VIS), 2))
@@ -142,7 +152,10 @@ def oracle(scn, res):
         return out
     base = BASE[scn["name"]]
     ran = [l.split(" ")[1] for l in res["trace"] if l.startswith("B ")]
-    dup = sorted({x for x in ran if ran.count(x) > 1})
+    sran = [l.split(" ")[1] for l in base["trace"] if l.startswith("B ")]
+    # more than once only where the scripts themselves force it (`redo x` inside a script), and then never more often
+    # than the serial run
+    dup = sorted({x for x in ran if ran.count(x) > max(1, sran.count(x))})
     if dup:
         out.append(({"kind": "built-more-than-once-in-one-run", "scenario": scn["name"], "targets": dup}, {"ran": ran}))
     if res["roots"] != base["roots"]:
